@@ -756,8 +756,9 @@ Proof.
   intros E [La Ls]. destruct (dm_compute_sizes beta H D E) as [L S].
   assert (LD : (a < length D)%nat) by lia. split; [exact LD|].
   unfold weight_at. apply nth_In.
-  rewrite (S (nth a H dummy_hp, nth a D dummy_dp)); [exact Ls|].
-  rewrite <- combine_nth by (symmetry; exact L). apply nth_In. rewrite combine_length. lia.
+  assert (Hin : In (nth a H dummy_hp, nth a D dummy_dp) (combine H D)).
+  { rewrite <- combine_nth by (symmetry; exact L). apply nth_In. rewrite combine_length. lia. }
+  pose proof (S _ Hin) as Sz. cbn [fst snd] in Sz. rewrite Sz. exact Ls.
 Qed.
 
 Lemma dm_weight_hypotheses (beta eps : R) (H : list Rhpart) (D : list Rdmpart) (blk pos : nat -> nat) (n : nat) :
